@@ -145,6 +145,11 @@ def keyOps2 : List (String × (Tables → R String)) := [
       pure (match B58.uncheck dsha s with
         | some payload => if payload.length = 21 ∧ payload.take 1 = pfx then "ok " ++ hex (payload.drop 1) else "err"
         | none => "err")),
+  ("s:pub_addr_spec", fun _ => do
+      -- P2PKH address of a key = Base58Check(version ‖ RIPEMD160(SHA256(SEC encoding)))
+      let pfx ← netPfx; let x ← bytes; let y ← bytes; let c ← bool
+      let sec : Bytes := if c then (if ofBE y % 2 = 0 then 0x02 else 0x03) :: x else 0x04 :: (x ++ y)
+      pure ("ok " ++ hexStr (B58.check dsha (pfx ++ Spec.Rmd.ripemd160 (Crypto.sha256 sec))))),
   ("m:hash160", fun _ => do let b ← bytes; pure ("ok " ++ hex (hash160 Crypto.sha256 tb b))),
   ("m:pub_addr", fun _ => do
       let pfx ← netPfx; let x ← bytes; let y ← bytes; let c ← bool
@@ -159,7 +164,7 @@ def keyOps2 : List (String × (Tables → R String)) := [
   ("m:is_bech32", fun _ => do let a ← str; pure s!"ok {b1 (isAddressBech32 bc a)}"),
   -- C12
   ("m:spk", fun T => do
-      let ty ← next; let h ← bytes
+      let ty ← next; let h ← bytes; let _net ← next
       let s := if ty == "p2pkh" then spkP2pkh h else if ty == "p2sh" then spkP2sh h else if ty == "p2wpkh" then spkP2wpkh h
                else if ty == "p2wsh" then spkP2wsh h else spkP2tr h
       pure (ans hex (scriptBytes T s))),
